@@ -219,3 +219,7 @@ impl<DID> Debug for DiseaseIterator<'_, DID> {
         write!(f, "DiseaseIterator")
     }
 }
+
+#[cfg(kani)]
+#[path = "/verif/kani/disease.rs"]
+mod verif_kani;
